@@ -1,11 +1,1095 @@
-//! C20 (not built yet)
-use crate::report::{Disagreement, Run};
-use serde_json::Value;
+//! C20 Number formats display correctly rounded values.
+//!
+//! Numbers: every decimal +-d.dd x 10^e (thorough d.ddd) with e in [-6,16], 0, the 2^53 neighbourhood, 1E300,
+//! 5E-324 and a few classic binary-fraction cases. Formats: a generated grammar
+//! [literal] integer placeholders (0 # ?, grouping) [. 0-3 of 0 # ?] [%] [E+00 | E-0] [literal], one or two sections.
+//! Oracle: a decimal reference formatter (reduce to 15 significant digits, round half away from zero on the decimal
+//! digit string, then sign, digits, grouping, exponent, literals). Cross-check: the engine's own ROUND and FIXED.
 
-pub fn run(run: &mut Run) {
-    run.machinery_errors.push("C20: check not built yet".into());
+use crate::fnum::{eq15, LOCALES};
+use crate::report::{Disagreement, Run};
+use ironcalc_base::cell::CellValue;
+use ironcalc_base::formatter::format::format_number;
+use ironcalc_base::locale::{get_locale, Locale};
+use ironcalc_base::Model;
+use serde_json::{json, Value};
+use std::collections::BTreeSet;
+
+// ------------------------------------------------------------------------------------------------
+// Decimal numbers
+// ------------------------------------------------------------------------------------------------
+
+/// value = 0.d1 d2 d3 ... x 10^exp, d1 != 0, no trailing zeros; zero has no digits.
+#[derive(Clone, Debug, PartialEq)]
+pub struct Dec {
+    pub digits: Vec<u8>,
+    pub exp: i32,
 }
 
-pub fn replay(_case: &Value) -> Vec<Disagreement> {
-    vec![]
+impl Dec {
+    fn zero() -> Dec {
+        Dec { digits: vec![], exp: 0 }
+    }
+    fn is_zero(&self) -> bool {
+        self.digits.is_empty()
+    }
+    fn normalise(mut self) -> Dec {
+        while self.digits.last() == Some(&0) {
+            self.digits.pop();
+        }
+        let lead = self.digits.iter().take_while(|d| **d == 0).count();
+        if lead > 0 {
+            self.digits.drain(..lead);
+            self.exp -= lead as i32;
+        }
+        if self.digits.is_empty() {
+            self.exp = 0;
+        }
+        self
+    }
+    /// digit at decimal position `pos`: pos = -1 is the first fractional digit, 0 the units, 1 the tens ...
+    fn digit_at(&self, pos: i32) -> u8 {
+        // digits[i] has position exp - 1 - i
+        let i = self.exp - 1 - pos;
+        if i < 0 || i as usize >= self.digits.len() {
+            0
+        } else {
+            self.digits[i as usize]
+        }
+    }
+    fn shift(&self, by: i32) -> Dec {
+        if self.is_zero() {
+            return self.clone();
+        }
+        Dec { digits: self.digits.clone(), exp: self.exp + by }
+    }
+    /// Rounds half away from zero to `places` fractional digits. Returns (rounded, was an exact tie).
+    fn round_places(&self, places: i32) -> (Dec, bool) {
+        if self.is_zero() {
+            return (self.clone(), false);
+        }
+        // keep digits with position >= -places
+        let keep = self.exp + places; // number of leading digits kept (may be <= 0)
+        if keep >= self.digits.len() as i32 {
+            return (self.clone(), false);
+        }
+        if keep < 0 {
+            return (Dec::zero(), false);
+        }
+        let keep = keep as usize;
+        let next = self.digits[keep];
+        let tie = next == 5 && self.digits[keep + 1..].iter().all(|d| *d == 0);
+        let mut d: Vec<u8> = self.digits[..keep].to_vec();
+        let mut exp = self.exp;
+        if next >= 5 {
+            // carry
+            let mut i = d.len();
+            loop {
+                if i == 0 {
+                    d.insert(0, 1);
+                    exp += 1;
+                    break;
+                }
+                i -= 1;
+                if d[i] == 9 {
+                    d[i] = 0;
+                } else {
+                    d[i] += 1;
+                    break;
+                }
+            }
+        }
+        (Dec { digits: d, exp }.normalise(), tie)
+    }
+    /// Rounds to `n` significant digits half away from zero. Returns (rounded, exact tie).
+    fn round_sig(&self, n: usize) -> (Dec, bool) {
+        if self.digits.len() <= n {
+            return (self.clone(), false);
+        }
+        self.round_places(n as i32 - self.exp)
+    }
+    fn int_digits(&self) -> Vec<u8> {
+        if self.is_zero() || self.exp <= 0 {
+            return vec![];
+        }
+        (0..self.exp).map(|i| *self.digits.get(i as usize).unwrap_or(&0)).collect()
+    }
+    fn frac_digits(&self, places: usize) -> Vec<u8> {
+        (1..=places as i32).map(|k| self.digit_at(-k)).collect()
+    }
+    fn to_f64(&self, neg: bool) -> f64 {
+        if self.is_zero() {
+            return 0.0;
+        }
+        let s: String = self.digits.iter().map(|d| (b'0' + d) as char).collect();
+        let t = format!("{}0.{}e{}", if neg { "-" } else { "" }, s, self.exp);
+        t.parse().unwrap_or(f64::NAN)
+    }
+}
+
+/// Exact decimal expansion of |x| (120 significant digits are exact or beyond need for every number used here).
+fn dec_of_f64(x: f64) -> Dec {
+    if x == 0.0 {
+        return Dec::zero();
+    }
+    let s = format!("{:.119e}", x.abs());
+    let (mant, exp) = s.split_once('e').unwrap_or((&s, "0"));
+    let e: i32 = exp.parse().unwrap_or(0);
+    let digits: Vec<u8> = mant.bytes().filter(|b| b.is_ascii_digit()).map(|b| b - b'0').collect();
+    Dec { digits, exp: e + 1 }.normalise()
+}
+
+/// The shortest digits that round-trip (what `{}` prints for a double).
+fn shortest_dec(x: f64) -> Dec {
+    if x == 0.0 || !x.is_finite() {
+        return Dec::zero();
+    }
+    let s = format!("{:e}", x.abs());
+    let (mant, exp) = s.split_once('e').unwrap_or((&s, "0"));
+    let e: i32 = exp.parse().unwrap_or(0);
+    let digits: Vec<u8> = mant.bytes().filter(|b| b.is_ascii_digit()).map(|b| b - b'0').collect();
+    Dec { digits, exp: e + 1 }.normalise()
+}
+
+#[derive(Clone, Debug)]
+pub struct Num {
+    pub text: String,
+    pub x: f64,
+    pub neg: bool,
+    /// |x| reduced to 15 significant digits
+    pub dec: Dec,
+    /// the reduction itself met an exact tie: the statement does not say how that is resolved
+    pub reduction_tie: bool,
+    /// the double has more than 15 significant digits
+    pub beyond15: bool,
+    /// the double's exact expansion
+    pub exact: Dec,
+}
+
+pub fn num_of_text(text: &str) -> Option<Num> {
+    let x: f64 = text.parse().ok()?;
+    if !x.is_finite() {
+        return None;
+    }
+    let exact = dec_of_f64(x);
+    let (dec, tie) = exact.round_sig(15);
+    Some(Num { text: text.to_string(), x, neg: x < 0.0 || (x == 0.0 && x.is_sign_negative()), beyond15: exact.digits.len() > 15, dec, reduction_tie: tie, exact })
+}
+
+pub fn numbers(thorough: bool) -> Vec<Num> {
+    let mut texts: Vec<String> = vec!["0".into()];
+    let (lo, hi) = if thorough { (1000, 9999) } else { (100, 999) };
+    let nd = if thorough { 3 } else { 2 };
+    for e in -6..=16 {
+        for m in lo..=hi {
+            let ms = format!("{}", m);
+            let t = format!("{}.{}e{}", &ms[..1], &ms[1..=nd], e);
+            texts.push(t.clone());
+            texts.push(format!("-{}", t));
+        }
+    }
+    // 2^53 neighbourhood
+    let p53: i64 = 1 << 53;
+    for d in -64..=64i64 {
+        texts.push(format!("{}", p53 + d));
+        texts.push(format!("-{}", p53 + d));
+    }
+    for t in [
+        "1e300", "-1e300", "5e-324", "1.7976931348623157e308", "0.1", "0.2", "0.30000000000000004", "0.3333333333333333",
+        "0.6666666666666666", "1.005", "2.675", "1234.5", "2.5", "-2.5", "0.5", "-0.5", "1.5", "0.05", "0.005", "0.0005",
+        "999.5", "9.995", "99999.5", "999999999999999", "1e15", "1e16", "123456789012345678", "0.000001", "1e-7", "1e-10",
+        "4.35", "4.45", "1.45", "8.575", "1.15", "2.345", "1e21", "1e22", "123456.789", "-0.6", "-0.4", "0.6", "0.4",
+    ] {
+        texts.push(t.to_string());
+    }
+    let mut seen = BTreeSet::new();
+    let mut out = vec![];
+    for t in texts {
+        if let Some(n) = num_of_text(&t) {
+            if seen.insert(n.x.to_bits()) {
+                out.push(n);
+            }
+        }
+    }
+    out
+}
+
+// ------------------------------------------------------------------------------------------------
+// Formats
+// ------------------------------------------------------------------------------------------------
+
+#[derive(Clone, Debug)]
+pub struct Sec {
+    pub code: String,
+    pub prefix: String,
+    pub suffix: String,
+    pub int_ph: Vec<char>,
+    pub group: bool,
+    pub frac_ph: Vec<char>,
+    pub has_point: bool,
+    pub percent: bool,
+    /// (plus sign always, number of exponent zeros)
+    pub sci: Option<(bool, usize)>,
+}
+
+#[derive(Clone, Debug)]
+pub struct Fmt {
+    pub code: String,
+    pub secs: Vec<Sec>,
+}
+
+const INTS: [(&str, &str, bool); 12] = [
+    ("0", "0", false),
+    ("#", "#", false),
+    ("?", "?", false),
+    ("00", "00", false),
+    ("#0", "#0", false),
+    ("##0", "##0", false),
+    ("000", "000", false),
+    ("?0", "?0", false),
+    ("#,##0", "###0", true),
+    ("#,###", "####", true),
+    ("#,#00", "##00", true),
+    ("0,000", "0000", true),
+];
+const FRACS: [&str; 12] = ["", ".0", ".00", ".000", ".#", ".##", ".###", ".0#", ".00#", ".0##", ".?", ".0?"];
+/// (code, text)
+const LITERALS: [(&str, &str); 6] = [("\"x\"", "x"), ("\\x", "x"), ("$", "$"), ("\"a b\"", "a b"), ("\"kg\"", "kg"), (" ", " ")];
+
+fn section(prefix: Option<usize>, int: usize, frac: usize, percent: bool, sci: Option<(bool, usize)>, suffix: Option<usize>) -> Sec {
+    let (icode, iph, group) = INTS[int];
+    let fcode = FRACS[frac];
+    let mut code = String::new();
+    let mut pre = String::new();
+    let mut suf = String::new();
+    if let Some(p) = prefix {
+        code.push_str(LITERALS[p].0);
+        pre.push_str(LITERALS[p].1);
+    }
+    code.push_str(icode);
+    code.push_str(fcode);
+    if let Some((plus, zeros)) = sci {
+        code.push_str(if plus { "E+" } else { "E-" });
+        for _ in 0..zeros {
+            code.push('0');
+        }
+    }
+    if percent {
+        code.push('%');
+    }
+    if let Some(s) = suffix {
+        code.push_str(LITERALS[s].0);
+        suf.push_str(LITERALS[s].1);
+    }
+    Sec {
+        code,
+        prefix: pre,
+        suffix: suf,
+        int_ph: iph.chars().collect(),
+        group,
+        frac_ph: fcode.chars().skip(1).collect(),
+        has_point: !fcode.is_empty(),
+        percent,
+        sci,
+    }
+}
+
+pub fn formats(thorough: bool) -> Vec<Fmt> {
+    let mut secs: Vec<Sec> = vec![];
+    // plain: every integer part x every fraction
+    let ints: Vec<usize> = if thorough { (0..INTS.len()).collect() } else { vec![0, 1, 3, 8, 11] };
+    let fracs: Vec<usize> = if thorough { (0..FRACS.len()).collect() } else { vec![0, 1, 2, 3, 5, 7, 10] };
+    for &i in &ints {
+        for &f in &fracs {
+            secs.push(section(None, i, f, false, None, None));
+        }
+    }
+    // percent
+    for &i in if thorough { &[0usize, 1, 8][..] } else { &[0usize, 8][..] } {
+        for &f in if thorough { &[0usize, 1, 2, 3, 5][..] } else { &[0usize, 2][..] } {
+            secs.push(section(None, i, f, true, None, None));
+        }
+    }
+    // scientific (one integer placeholder)
+    for &f in if thorough { &[0usize, 1, 2, 3, 5, 7][..] } else { &[0usize, 2, 5][..] } {
+        for sci in [(true, 2usize), (false, 1usize), (true, 1usize), (true, 3usize)] {
+            if !thorough && (sci == (true, 1) || sci == (true, 3)) {
+                continue;
+            }
+            secs.push(section(None, 0, f, false, Some(sci), None));
+        }
+    }
+    // literals
+    let lits: Vec<usize> = if thorough { (0..LITERALS.len()).collect() } else { vec![0, 1, 2] };
+    for &l in &lits {
+        secs.push(section(Some(l), 0, 2, false, None, None));
+        secs.push(section(None, 8, 2, false, None, Some(l)));
+        if thorough {
+            secs.push(section(Some(l), 8, 0, false, None, Some(l)));
+            secs.push(section(None, 0, 1, true, None, Some(l)));
+        }
+    }
+    let mut out: Vec<Fmt> = secs.iter().map(|s| Fmt { code: s.code.clone(), secs: vec![s.clone()] }).collect();
+    // two sections
+    let two: Vec<(Sec, Sec)> = {
+        let mut v = vec![];
+        let neg_paren = |i: usize, f: usize| {
+            let mut s = section(None, i, f, false, None, None);
+            s.code = format!("({})", s.code);
+            s.prefix = "(".into();
+            s.suffix = ")".into();
+            s
+        };
+        let neg_minus = |i: usize, f: usize| {
+            let mut s = section(None, i, f, false, None, None);
+            s.code = format!("-{}", s.code);
+            s.prefix = "-".into();
+            s
+        };
+        v.push((section(None, 0, 2, false, None, None), neg_paren(0, 2)));
+        v.push((section(None, 8, 0, false, None, None), neg_minus(8, 0)));
+        v.push((section(None, 8, 2, false, None, None), neg_paren(8, 2)));
+        if thorough {
+            v.push((section(None, 0, 0, false, None, None), neg_paren(0, 0)));
+            v.push((section(None, 0, 1, false, None, None), section(Some(0), 0, 1, false, None, None)));
+            v.push((section(None, 0, 2, true, None, None), neg_minus(0, 2)));
+            v.push((section(None, 1, 5, false, None, None), neg_minus(1, 5)));
+            v.push((section(Some(2), 8, 2, false, None, None), neg_paren(8, 2)));
+        }
+        v
+    };
+    for (a, b) in two {
+        out.push(Fmt { code: format!("{};{}", a.code, b.code), secs: vec![a, b] });
+    }
+    out
+}
+
+// ------------------------------------------------------------------------------------------------
+// Reference formatter
+// ------------------------------------------------------------------------------------------------
+
+pub struct Seps {
+    pub decimal: String,
+    pub group: String,
+}
+
+pub fn seps(locale: &Locale) -> Seps {
+    Seps { decimal: locale.numbers.symbols.decimal.clone(), group: locale.numbers.symbols.group.clone() }
+}
+
+fn push_digits(out: &mut String, ds: &[u8]) {
+    for d in ds {
+        out.push((b'0' + d) as char);
+    }
+}
+
+/// Deviations from the reference that name one known way of being wrong each (all false = the reference).
+#[derive(Clone, Copy, Default, Debug, PartialEq)]
+pub struct Opts {
+    /// an exact decimal tie is resolved towards zero (what rounding the binary double gives)
+    pub tie_down: bool,
+    /// thousands separators only between digits of the number, none among padding zeros
+    pub pad_group_off: bool,
+    /// the double's own (shortest round-trip) digits instead of its 15-significant-digit reduction
+    pub exact_digits: bool,
+    /// a zero exponent is written with a minus sign
+    pub exp_zero_minus: bool,
+    /// no minus sign in front of a negative number (one-section formats)
+    pub no_minus: bool,
+    /// rounding that carries into the integer part shows the old integer part and a zero fraction
+    pub carry_lost: bool,
+    /// the value is first rounded to (decimals + integer digits, at least one) significant digits, then again
+    pub rounded_twice: bool,
+    /// a mantissa that rounds up to 10 is not renormalised
+    pub sci_no_renorm: bool,
+    /// an exponent with more digits than placeholders repeats its leading digits
+    pub exp_digits_repeated: bool,
+}
+
+pub const TOGGLES: [&str; 9] = [
+    "tie-rounded-on-the-binary-value",
+    "no-group-separator-among-padding-zeros",
+    "digits-beyond-15-significant-shown",
+    "zero-exponent-written-negative",
+    "minus-sign-missing",
+    "carry-into-integer-part-lost",
+    "rounded-twice",
+    "mantissa-10-not-renormalised",
+    "long-exponent-digits-repeated",
+];
+
+fn opts_of(mask: u32) -> Opts {
+    Opts {
+        tie_down: mask & 1 != 0,
+        pad_group_off: mask & 2 != 0,
+        exact_digits: mask & 4 != 0,
+        exp_zero_minus: mask & 8 != 0,
+        no_minus: mask & 16 != 0,
+        carry_lost: mask & 32 != 0,
+        rounded_twice: mask & 64 != 0,
+        sci_no_renorm: mask & 128 != 0,
+        exp_digits_repeated: mask & 256 != 0,
+    }
+}
+
+/// Integer part through the placeholders, with grouping over everything emitted.
+fn render_int(int: &[u8], ph: &[char], group: bool, sp: &Seps, o: &Opts) -> String {
+    let mut cells: Vec<(char, bool)> = vec![];
+    if int.len() < ph.len() {
+        let pad = ph.len() - int.len();
+        for p in ph.iter().take(pad) {
+            match p {
+                '0' => cells.push(('0', true)),
+                '?' => cells.push((' ', true)),
+                _ => {}
+            }
+        }
+    }
+    for d in int {
+        cells.push(((b'0' + d) as char, false));
+    }
+    let mut out = String::new();
+    let n = cells.len();
+    for (i, (c, padding)) in cells.iter().enumerate() {
+        out.push(*c);
+        let left = n - 1 - i;
+        if group && left > 0 && left % 3 == 0 && !(o.pad_group_off && *padding) {
+            out.push_str(&sp.group);
+        }
+    }
+    out
+}
+
+/// Fraction digits through the placeholders: trailing zeros are dropped at '#', blanked at '?', kept at '0'.
+/// Returns the text and whether it contains a digit.
+fn render_frac(frac: &[u8], ph: &[char]) -> (String, bool) {
+    let mut last_needed = 0usize;
+    for i in 0..ph.len() {
+        if ph[i] == '0' || frac[i] != 0 {
+            last_needed = i + 1;
+        }
+    }
+    let mut out = String::new();
+    for i in 0..ph.len() {
+        if i < last_needed {
+            out.push((b'0' + frac[i]) as char);
+        } else if ph[i] == '?' {
+            out.push(' ');
+        }
+    }
+    (out, last_needed > 0)
+}
+
+fn truncate_sig(v: &Dec, n: usize) -> Dec {
+    Dec { digits: v.digits[..n.min(v.digits.len())].to_vec(), exp: v.exp }.normalise()
+}
+
+fn truncate_places(v: &Dec, places: i32) -> Dec {
+    let keep = (v.exp + places).max(0) as usize;
+    truncate_sig(v, keep)
+}
+
+pub struct Rendered {
+    /// accepted texts: [0] is the canonical one; others differ where the statement is silent (decimal separator
+    /// without fraction digits; sign of a negative value displayed as zero)
+    pub texts: Vec<String>,
+    pub tie: bool,
+    pub rounded_zero: bool,
+}
+
+fn render_section(sec: &Sec, dec: &Dec, negative: bool, auto_minus: bool, sp: &Seps, o: &Opts) -> Rendered {
+    let mut v = dec.clone();
+    if sec.percent {
+        v = v.shift(2);
+    }
+    let places = sec.frac_ph.len() as i32;
+    // bodies: with and (when there are no fraction digits to show) without the decimal separator
+    let mut bodies: Vec<String> = vec![];
+    let tie;
+    let rounded_zero;
+    let mut tail = String::new();
+    let int_text;
+    let frac_text;
+    let frac_has_digit;
+    if o.rounded_twice && !v.is_zero() {
+        let first = places as usize + v.exp.max(1) as usize;
+        let (r1, t1) = v.round_sig(first);
+        v = if t1 && o.tie_down { truncate_sig(&v, first) } else { r1 };
+    }
+    match sec.sci {
+        None => {
+            let (mut r, t) = v.round_places(places);
+            tie = t;
+            if t && o.tie_down {
+                r = truncate_places(&v, places);
+            }
+            if o.carry_lost && r.int_digits() != v.int_digits() {
+                r = Dec { digits: v.int_digits(), exp: v.exp.max(0) }.normalise();
+            }
+            rounded_zero = r.is_zero();
+            int_text = render_int(&r.int_digits(), &sec.int_ph, sec.group, sp, o);
+            let (ft, fd) = render_frac(&r.frac_digits(places as usize), &sec.frac_ph);
+            frac_text = ft;
+            frac_has_digit = fd;
+        }
+        Some((plus, zeros)) => {
+            let (m, e) = if v.is_zero() {
+                tie = false;
+                rounded_zero = true;
+                (Dec::zero(), 0)
+            } else {
+                let (mut r, t) = v.round_sig(1 + places as usize);
+                tie = t;
+                if t && o.tie_down {
+                    r = truncate_sig(&v, 1 + places as usize);
+                }
+                rounded_zero = false;
+                if o.carry_lost && (r.exp > v.exp || r.digits.first() != v.digits.first()) {
+                    // 9.99995 -> "9.00" with the old exponent
+                    (Dec { digits: vec![v.digits[0]], exp: 1 }, v.exp - 1)
+                } else if o.sci_no_renorm && r.exp > v.exp {
+                    // 9.5 -> "10" with the old exponent
+                    (Dec { digits: vec![1], exp: 2 }, v.exp - 1)
+                } else {
+                    (Dec { digits: r.digits.clone(), exp: 1 }, r.exp - 1)
+                }
+            };
+            let int = if m.is_zero() { vec![0] } else { m.int_digits() };
+            int_text = render_int(&int, &sec.int_ph, false, sp, o);
+            let (ft, fd) = render_frac(&m.frac_digits(places as usize), &sec.frac_ph);
+            frac_text = ft;
+            frac_has_digit = fd;
+            tail.push('E');
+            if e < 0 || (e == 0 && o.exp_zero_minus && !m.is_zero()) {
+                tail.push('-');
+            } else if plus {
+                tail.push('+');
+            }
+            let es = format!("{}", e.abs());
+            for _ in es.len()..zeros {
+                tail.push('0');
+            }
+            if o.exp_digits_repeated && es.len() > zeros && zeros >= 2 {
+                for k in 0..zeros {
+                    tail.push_str(&es[..=es.len() - zeros + k]);
+                }
+            } else {
+                tail.push_str(&es);
+            }
+        }
+    }
+    if sec.has_point {
+        bodies.push(format!("{}{}{}{}", int_text, sp.decimal, frac_text, tail));
+        if !frac_has_digit {
+            bodies.push(format!("{}{}{}", int_text, frac_text, tail));
+        }
+    } else {
+        bodies.push(format!("{}{}", int_text, tail));
+    }
+    let mut texts = vec![];
+    let minus = auto_minus && negative && !o.no_minus;
+    for with_minus in [true, false] {
+        if with_minus && !minus {
+            continue;
+        }
+        if !with_minus && minus && !rounded_zero {
+            continue;
+        }
+        for b in &bodies {
+            let mut out = String::new();
+            if with_minus {
+                out.push('-');
+            }
+            out.push_str(&sec.prefix);
+            out.push_str(b);
+            if sec.percent {
+                out.push('%');
+            }
+            out.push_str(&sec.suffix);
+            texts.push(out);
+        }
+    }
+    Rendered { texts, tie, rounded_zero }
+}
+
+pub fn reference(n: &Num, f: &Fmt, sp: &Seps, o: &Opts) -> Rendered {
+    let (sec, auto_minus) = if f.secs.len() == 2 && n.x < 0.0 { (&f.secs[1], false) } else { (&f.secs[0], true) };
+    if o.exact_digits {
+        // the digits the double itself prints (after the engine's own multiplication by 100 per %)
+        let mut sec2 = sec.clone();
+        let mut y = n.x.abs();
+        if sec.percent {
+            y *= 100.0;
+            sec2.percent = false;
+            sec2.suffix = format!("%{}", sec.suffix);
+        }
+        let d = shortest_dec(y);
+        return render_section(&sec2, &d, n.x < 0.0, auto_minus, sp, o);
+    }
+    render_section(sec, &n.dec, n.x < 0.0, auto_minus, sp, o)
+}
+
+// ------------------------------------------------------------------------------------------------
+// Judging
+// ------------------------------------------------------------------------------------------------
+
+fn only_digits(s: &str) -> String {
+    s.chars().filter(|c| c.is_ascii_digit()).collect()
+}
+
+fn magnitude_class(n: &Num, sec: &Sec) -> &'static str {
+    let mut v = n.dec.clone();
+    if sec.percent {
+        v = v.shift(2);
+    }
+    if v.is_zero() {
+        "zero"
+    } else if v.exp <= 0 {
+        "below-1"
+    } else if v.exp <= 15 {
+        "1-to-1e15"
+    } else {
+        "above-1e15"
+    }
+}
+
+fn kind_class(sec: &Sec) -> &'static str {
+    if sec.sci.is_some() {
+        "scientific"
+    } else if sec.percent {
+        "percent"
+    } else {
+        "fixed"
+    }
+}
+
+/// Compares one (number, format, locale) with the engine. Returns (signature, case, detail) triples.
+pub fn check_pair(n: &Num, f: &Fmt, loc_id: &str, locale: &Locale, sp: &Seps) -> Vec<(String, Value, String)> {
+    let r = reference(n, f, sp, &Opts::default());
+    let got = match crate::env::guarded(|| format_number(n.x, &f.code, locale)) {
+        Ok(g) => g,
+        Err(p) => {
+            return vec![(
+                format!("panic at={}", p.rsplit(" @ ").next().unwrap_or("?")),
+                json!({"number": n.text, "format": f.code, "locale": loc_id}),
+                format!("format_number({}, `{}`) panics: {}", n.text, f.code, p),
+            )]
+        }
+    };
+    if got.error.is_none() && r.texts.iter().any(|t| *t == got.text) {
+        return vec![];
+    }
+    let case = json!({"number": n.text, "format": f.code, "locale": loc_id});
+    let sec = if f.secs.len() == 2 && n.x < 0.0 { &f.secs[1] } else { &f.secs[0] };
+    let want = &r.texts[0];
+    let detail = format!(
+        "format_number({}, `{}`, {}) gives `{}`{} but the reference gives `{}` (15-digit value 0.{}e{}{})",
+        n.text,
+        f.code,
+        loc_id,
+        got.text,
+        got.error.as_ref().map(|e| format!(" error={}", e)).unwrap_or_default(),
+        want,
+        n.dec.digits.iter().map(|d| (b'0' + d) as char).collect::<String>(),
+        n.dec.exp,
+        if r.tie { ", exact tie at the displayed place" } else { "" }
+    );
+    if got.error.is_some() {
+        return vec![(format!("format-error kind={}", kind_class(sec)), case, detail)];
+    }
+    if got.text.contains("inf") || got.text.contains("NaN") {
+        return vec![(format!("non-finite-text kind={}", kind_class(sec)), case, detail)];
+    }
+    // smallest set of named deviations that reproduces the engine's text
+    let applicable = |bit: usize| -> bool {
+        match bit {
+            0 => true,
+            1 => sec.group,
+            2 => n.beyond15,
+            3 => sec.sci.is_some(),
+            4 => n.x < 0.0 && f.secs.len() == 1,
+            5 => true,
+            6 => true,
+            7 => sec.sci.is_some(),
+            8 => sec.sci.is_some(),
+            _ => false,
+        }
+    };
+    let bits: Vec<usize> = (0..TOGGLES.len()).filter(|b| applicable(*b)).collect();
+    let mut masks: Vec<u32> = vec![];
+    for a in 0..bits.len() {
+        masks.push(1 << bits[a]);
+    }
+    for a in 0..bits.len() {
+        for b in a + 1..bits.len() {
+            masks.push((1 << bits[a]) | (1 << bits[b]));
+        }
+    }
+    for a in 0..bits.len() {
+        for b in a + 1..bits.len() {
+            for c in b + 1..bits.len() {
+                masks.push((1 << bits[a]) | (1 << bits[b]) | (1 << bits[c]));
+            }
+        }
+    }
+    let mut best: Option<u32> = None;
+    for mask in masks {
+        let o = opts_of(mask);
+        let v = reference(n, f, sp, &o);
+        if o.tie_down && !v.tie {
+            continue;
+        }
+        if v.texts.iter().any(|t| *t == got.text) {
+            best = Some(mask);
+            break;
+        }
+    }
+    if let Some(mask) = best {
+        let mut out = vec![];
+        for (i, name) in TOGGLES.iter().enumerate() {
+            if mask & (1 << i) != 0 {
+                let ctx = match i {
+                    0 => format!(" kind={}", kind_class(sec)),
+                    4 => {
+                        // is the magnitude the engine displays zero or exactly one unit of the last displayed place?
+                        let p = sec.frac_ph.len() as i32;
+                        let body: String = got
+                            .text
+                            .split('E')
+                            .next()
+                            .unwrap_or("")
+                            .chars()
+                            .filter(|c| c.is_ascii_digit() || c.to_string() == sp.decimal)
+                            .collect();
+                        let shown = body.replace(&sp.decimal, ".").parse::<f64>().unwrap_or(0.0);
+                        let small = shown == 0.0 || (shown - 10f64.powi(-p)).abs() < 1e-12;
+                        format!(" kind={} displayed={}", kind_class(sec), if small { "one-unit-of-the-last-place-or-zero" } else { "larger" })
+                    }
+                    5 | 6 => format!(" kind={} magnitude={}", kind_class(sec), magnitude_class(n, sec)),
+                    _ => String::new(),
+                };
+                out.push((format!("{}{}", name, ctx), case.clone(), detail.clone()));
+            }
+        }
+        return out;
+    }
+    // unexplained: describe the numeric relation
+    let to_num = |s: &str| -> Option<f64> {
+        let body: String = s.split('E').next().unwrap_or("").chars().filter(|c| c.is_ascii_digit() || c.to_string() == sp.decimal).collect();
+        body.replace(&sp.decimal, ".").parse::<f64>().ok().or(if only_digits(s).is_empty() { Some(0.0) } else { None })
+    };
+    if sec.sci.is_some() && !n.dec.is_zero() {
+        if let Some(m) = to_num(&got.text) {
+            if m < 1.0 {
+                return vec![(
+                    "scientific-mantissa-below-1 (value just under a power of ten)".to_string(),
+                    case,
+                    detail,
+                )];
+            }
+        }
+    }
+    let unit = 10f64.powi(-(sec.frac_ph.len() as i32));
+    let off = match (to_num(&got.text), to_num(want)) {
+        (Some(a), Some(b)) => {
+            let d = ((a - b).abs() / unit).round();
+            if d == 0.0 {
+                "same-digits".to_string()
+            } else if d == 1.0 {
+                "one-unit".to_string()
+            } else {
+                "several-units".to_string()
+            }
+        }
+        _ => "unparsed".to_string(),
+    };
+    vec![(
+        format!(
+            "unexplained kind={} magnitude={} off={} tie={}{}",
+            kind_class(sec),
+            magnitude_class(n, sec),
+            off,
+            r.tie,
+            if sec.frac_ph.contains(&'?') || sec.int_ph.contains(&'?') { " with-?" } else { "" }
+        ),
+        case,
+        detail,
+    )]
+}
+
+// ------------------------------------------------------------------------------------------------
+// Cross-check with ROUND and FIXED
+// ------------------------------------------------------------------------------------------------
+
+struct RoundModel {
+    model: Model<'static>,
+}
+
+impl RoundModel {
+    fn new() -> RoundModel {
+        let mut model = Model::new_empty("c20", "en", "UTC", "en").expect("model");
+        for p in 0..4 {
+            let _ = model.set_user_input(0, 2, 1 + p, format!("=ROUND(A1,{})", p));
+            let _ = model.set_user_input(0, 3, 1 + p, format!("=FIXED(A1,{},TRUE)", p));
+        }
+        RoundModel { model }
+    }
+}
+
+fn plain_text(n: &Num, places: usize) -> (String, bool, bool) {
+    let (r, tie) = n.dec.round_places(places as i32);
+    let mut s = String::new();
+    let int = r.int_digits();
+    if int.is_empty() {
+        s.push('0');
+    } else {
+        push_digits(&mut s, &int);
+    }
+    if places > 0 {
+        s.push('.');
+        push_digits(&mut s, &r.frac_digits(places));
+    }
+    (s, tie, r.is_zero())
+}
+
+fn cross_check(rm: &mut RoundModel, n: &Num) -> Vec<Disagreement> {
+    let mut out = vec![];
+    if n.x.abs() >= 1e15 || n.reduction_tie {
+        return out;
+    }
+    let _ = rm.model.update_cell_with_number(0, 1, 1, n.x);
+    rm.model.evaluate();
+    for p in 0..4usize {
+        let (text, tie, zero) = plain_text(n, p);
+        let (rdec, _) = n.dec.round_places(p as i32);
+        let want = rdec.to_f64(n.neg);
+        let case = json!({"cross_check": n.text, "places": p});
+        match rm.model.get_cell_value_by_index(0, 2, 1 + p as i32) {
+            Ok(CellValue::Number(v)) => {
+                if !eq15(v, want) {
+                    out.push(Disagreement {
+                        sig: format!("cross-check ROUND differs from decimal half-away rounding tie={}", tie),
+                        case: case.clone(),
+                        detail: format!("ROUND({},{}) gives {} but decimal rounding of the 15-digit value gives {}", n.text, p, v, want),
+                    });
+                }
+            }
+            other => out.push(Disagreement {
+                sig: "cross-check ROUND gives no number".into(),
+                case: case.clone(),
+                detail: format!("ROUND({},{}) gives {:?}", n.text, p, other),
+            }),
+        }
+        let want_text = if n.neg { format!("-{}", text) } else { text.clone() };
+        match rm.model.get_cell_value_by_index(0, 3, 1 + p as i32) {
+            Ok(CellValue::String(s)) => {
+                let ok = s == want_text || (zero && s == text);
+                if !ok {
+                    out.push(Disagreement {
+                        sig: format!("cross-check FIXED differs from decimal half-away rounding tie={}", tie),
+                        case,
+                        detail: format!("FIXED({},{},TRUE) gives `{}` but decimal rounding of the 15-digit value gives `{}`", n.text, p, s, want_text),
+                    });
+                }
+            }
+            other => out.push(Disagreement {
+                sig: "cross-check FIXED gives no text".into(),
+                case,
+                detail: format!("FIXED({},{},TRUE) gives {:?}", n.text, p, other),
+            }),
+        }
+    }
+    out
+}
+
+// ------------------------------------------------------------------------------------------------
+
+pub fn run(run: &mut Run) {
+    let thorough = run.tier.thorough();
+    let nums = numbers(thorough);
+    let fmts = formats(thorough);
+    // thorough: two locales on the full grid, the others on the quick grid of formats
+    let quick_fmts = formats(false);
+    let chunk = 256usize;
+    let n_units = nums.len().div_ceil(chunk);
+    let res = crate::env::par_units(n_units, |u| {
+        let mut ds: std::collections::BTreeMap<String, (u64, Disagreement)> = std::collections::BTreeMap::new();
+        let add = |ds: &mut std::collections::BTreeMap<String, (u64, Disagreement)>, sig: String, case: Value, detail: String| {
+            match ds.get_mut(&sig) {
+                Some(e) => {
+                    e.0 += 1;
+                    if case.to_string().len() < e.1.case.to_string().len() {
+                        e.1 = Disagreement { sig, case, detail };
+                    }
+                }
+                None => {
+                    ds.insert(sig.clone(), (1, Disagreement { sig, case, detail }));
+                }
+            }
+        };
+        let mut calls = 0u64;
+        let mut ties = 0u64;
+        let mut nontrivial = 0u64;
+        let mut outcomes: BTreeSet<u128> = BTreeSet::new();
+        let mut rm = RoundModel::new();
+        for n in nums.iter().skip(u * chunk).take(chunk) {
+            if n.reduction_tie {
+                continue;
+            }
+            for (li, loc_id) in LOCALES.iter().enumerate() {
+                let locale = get_locale(loc_id).expect("locale");
+                let sp = seps(locale);
+                let fs = if thorough && li >= 2 { &quick_fmts } else { &fmts };
+                for f in fs {
+                    calls += 1;
+                    for (sig, case, detail) in check_pair(n, f, loc_id, locale, &sp) {
+                        add(&mut ds, sig, case, detail);
+                    }
+                    if li == 0 {
+                        let r = reference(n, f, &sp, &Opts::default());
+                        if r.tie {
+                            ties += 1;
+                        }
+                        outcomes.insert(crate::env::digest(&r.texts[0]));
+                        // non-trivial: rounding actually drops digits, or grouping/exponent is exercised
+                        let sec = if f.secs.len() == 2 && n.x < 0.0 { &f.secs[1] } else { &f.secs[0] };
+                        let mut v = n.dec.clone();
+                        if sec.percent {
+                            v = v.shift(2);
+                        }
+                        let drops = v.digits.len() as i32 - v.exp > sec.frac_ph.len() as i32;
+                        if drops || sec.group || sec.sci.is_some() {
+                            nontrivial += 1;
+                        }
+                    }
+                }
+            }
+            for d in cross_check(&mut rm, n) {
+                add(&mut ds, d.sig, d.case, d.detail);
+            }
+        }
+        (ds, calls, ties, nontrivial, outcomes)
+    });
+    let mut calls = 0;
+    let mut ties = 0;
+    let mut outcomes: BTreeSet<u128> = BTreeSet::new();
+    for r in res {
+        match r {
+            Ok((ds, c, t, nt, o)) => {
+                for (_, (k, d)) in ds {
+                    // merge counts: add the witness once, then bump the count
+                    let sig = d.sig.clone();
+                    run.add(d);
+                    if let Some(e) = run.clusters.get_mut(&sig) {
+                        e.0 += k - 1;
+                    }
+                }
+                calls += c;
+                ties += t;
+                run.nontrivial += nt;
+                outcomes.extend(o);
+            }
+            Err(e) => run.machinery_errors.push(format!("unit panicked: {}", e)),
+        }
+    }
+    let skipped = nums.iter().filter(|n| n.reduction_tie).count();
+    run.evaluations = calls + nums.len() as u64 * 8;
+    run.states = nums.len() as u64 * fmts.len() as u64;
+    run.transitions = calls + nums.len() as u64 * 8;
+    run.traces = calls;
+    run.distinct_outcomes = outcomes.len() as u64;
+    run.rule = "a (number, format) pair of the first locale is non-trivial when the format drops digits of the number (rounding happens), or uses grouping or an exponent".into();
+    run.bound = json!({
+        "numbers": nums.len(),
+        "number_family": if thorough { "0, +-d.ddd x 10^e (e in -6..=16), 2^53 +- 64, 1e300, 5e-324, 43 classic cases" } else { "0, +-d.dd x 10^e (e in -6..=16), 2^53 +- 64, 1e300, 5e-324, 43 classic cases" },
+        "formats": fmts.len(),
+        "formats_quick_grid": quick_fmts.len(),
+        "locales": LOCALES,
+        "locales_on_full_format_grid": if thorough { 2 } else { 6 },
+        "format_calls": calls,
+        "exact_ties_met": ties,
+        "numbers_skipped_reduction_tie": skipped,
+        "sample_formats": fmts.iter().step_by((fmts.len() / 12).max(1)).map(|f| f.code.clone()).collect::<Vec<_>>(),
+    });
+    run.sample(json!({"number": "2.5", "format": "0", "reference": "3"}));
+    run.sample(json!({"number": "-1234.5", "format": "#,##0.00;(#,##0.00)", "reference": "(1,234.50)"}));
+    run.sample(json!({"number": "9.995e5", "format": "0.00E+00", "reference": "1.00E+06"}));
+    run.exhaustive = true;
+    run.assume("reference semantics: value reduced to 15 significant decimal digits (half away from zero; numbers whose reduction is itself an exact tie are skipped), multiplied by 100 per %, rounded half away from zero at the format's decimals on the decimal digits; all integer digits are shown, missing ones padded by 0 (digit), ? (space), # (nothing); thousands separators every three emitted integer characters; trailing fraction zeros dropped at #, blanked at ?, the decimal separator is always written when the format has one; one-section formats put '-' in front of everything, the second section shows the absolute value; scientific: one integer placeholder, mantissa renormalised after rounding, E+ always signs the exponent, E- only negative ones");
+    run.assume("not judged: the sign of a negative value that displays as zero (both accepted); scientific formats with several integer placeholders (engineering notation) and '?' with grouping are not generated");
+    run.assume("cross-check: ROUND(x,p) and FIXED(x,p,TRUE) for p=0..3 through a model must equal the reference's decimal rounding (|x| < 1e15)");
+    if thorough {
+        run.assume("thorough: en and en-GB on the full format grid, es fr de it on the quick format grid (the locale only changes the two separator strings)");
+    }
+}
+
+pub fn replay(case: &Value) -> Vec<Disagreement> {
+    if let Some(t) = case["cross_check"].as_str() {
+        let mut rm = RoundModel::new();
+        let p = case["places"].as_u64().unwrap_or(0);
+        return match num_of_text(t) {
+            Some(n) => cross_check(&mut rm, &n).into_iter().filter(|d| d.case["places"].as_u64() == Some(p)).collect(),
+            None => vec![],
+        };
+    }
+    let text = case["number"].as_str().unwrap_or("0");
+    let code = case["format"].as_str().unwrap_or("0");
+    let loc = case["locale"].as_str().unwrap_or("en");
+    let n = match num_of_text(text) {
+        Some(n) => n,
+        None => return vec![],
+    };
+    let all = formats(true);
+    let f = match all.iter().chain(formats(false).iter()).find(|f| f.code == code) {
+        Some(f) => f.clone(),
+        None => return vec![],
+    };
+    let locale = match get_locale(loc) {
+        Ok(l) => l,
+        Err(_) => return vec![],
+    };
+    let sp = seps(locale);
+    check_pair(&n, &f, loc, locale, &sp)
+        .into_iter()
+        .map(|(sig, case, detail)| Disagreement { sig, case, detail })
+        .collect()
+}
+
+#[cfg(test)]
+mod tests {
+    use super::*;
+    fn r(text: &str, code: &str) -> String {
+        let n = num_of_text(text).unwrap();
+        let f = formats(true).into_iter().find(|f| f.code == code).unwrap_or_else(|| panic!("no format {}", code));
+        let sp = Seps { decimal: ".".into(), group: ",".into() };
+        reference(&n, &f, &sp, &Opts::default()).texts[0].clone()
+    }
+    #[test]
+    fn reference_examples() {
+        assert_eq!(r("2.5", "0"), "3");
+        assert_eq!(r("-2.5", "0"), "-3");
+        assert_eq!(r("1234.5", "#,##0"), "1,235");
+        assert_eq!(r("2.675", "0.00"), "2.68");
+        assert_eq!(r("1.005", "0.00"), "1.01");
+        assert_eq!(r("0.5", "#"), "1");
+        assert_eq!(r("0.4", "#"), "");
+        assert_eq!(r("0.4", "#.##"), ".4");
+        assert_eq!(r("3", "0.#"), "3.");
+        assert_eq!(r("5", "000"), "005");
+        assert_eq!(r("5", "0,000"), "0,005");
+        assert_eq!(r("1234567", "#,##0.00"), "1,234,567.00");
+        assert_eq!(r("0.125", "0.00%"), "12.50%");
+        assert_eq!(r("9.995e5", "0.00E+00"), "1.00E+06");
+        assert_eq!(r("1.23e-5", "0.00E+00"), "1.23E-05");
+        assert_eq!(r("5", "0.00E+00"), "5.00E+00");
+        assert_eq!(r("5", "0E-0"), "5E0");
+        assert_eq!(r("0.05", "0E-0"), "5E-2");
+        assert_eq!(r("-1234.5", "#,##0.00;(#,##0.00)"), "(1,234.50)");
+        assert_eq!(r("1.5", "0.0?"), "1.5 ");
+        assert_eq!(r("9007199254740993", "0"), "9007199254740990");
+        assert_eq!(r("1e300", "0").len(), 301);
+        assert_eq!(r("0.30000000000000004", "0.000"), "0.300");
+        assert_eq!(r("5", "\"x\"0.00"), "x5.00");
+        assert_eq!(r("-5", "\"x\"0.00"), "-x5.00");
+    }
 }
